@@ -190,6 +190,12 @@ pub struct Obs {
     pub frames: Vec<(usize, usize)>,
 }
 
+impl Obs {
+    pub fn over_budget(&self) -> bool {
+        self.operands.iter().any(|v| v.over_budget()) || self.values.iter().any(|v| v.over_budget())
+    }
+}
+
 pub fn observe<D: SimData>(d: &D) -> Obs {
     let r = guarded(|| {
         let operands = d.operands().into_iter().map(|a| read_val(d, a)).collect();
